@@ -1,2 +1,181 @@
 //! Kani harnesses for unit names (see /verif/notes/AGENT-BRIEF.md for naming: full_*, bnd_*, cex_*).
+//! Property C16: domain-name text form, equality, ordering, hashing.
 #![allow(unused_imports, dead_code)]
+
+use core::cmp::Ordering;
+use core::hash::{Hash, Hasher};
+use core::str::FromStr;
+
+use crate::name::{Error, Label, LabelBuf, Name, NameBuilder};
+
+// ---------------------------------------------------------------------
+// Reference model (RFC 1034 3.1 / RFC 4343: ASCII case-insensitive;
+// RFC 4034 6.1: canonical order).  Written from the RFCs.
+// ---------------------------------------------------------------------
+
+/// RFC 4343 section 3: only the octets 0x41..=0x5A fold, to 0x61..=0x7A.
+fn fold(c: u8) -> u8 {
+    if 0x41 <= c && c <= 0x5a {
+        c + 0x20
+    } else {
+        c
+    }
+}
+
+/// Same length and equal octet by octet after case folding.
+fn ref_label_eq(a: &[u8], b: &[u8]) -> bool {
+    if a.len() != b.len() {
+        return false;
+    }
+    let mut i = 0;
+    while i < a.len() {
+        if fold(a[i]) != fold(b[i]) {
+            return false;
+        }
+        i += 1;
+    }
+    true
+}
+
+/// RFC 4034 6.1: labels compare as unsigned left-justified octet strings with
+/// upper-case US-ASCII letters treated as lower case; the absence of an octet
+/// sorts before a zero octet.
+fn ref_label_cmp(a: &[u8], b: &[u8]) -> Ordering {
+    let mut i = 0;
+    loop {
+        if i >= a.len() && i >= b.len() {
+            return Ordering::Equal;
+        }
+        if i >= a.len() {
+            return Ordering::Less;
+        }
+        if i >= b.len() {
+            return Ordering::Greater;
+        }
+        let (x, y) = (fold(a[i]), fold(b[i]));
+        if x < y {
+            return Ordering::Less;
+        }
+        if x > y {
+            return Ordering::Greater;
+        }
+        i += 1;
+    }
+}
+
+/// Largest label (type bound of `Label`).
+const L: usize = 63;
+
+/// A hasher that records the octets it is fed.
+pub(crate) struct Rec {
+    b: [u8; 80],
+    n: usize,
+}
+impl Rec {
+    fn new() -> Self {
+        Rec { b: [0; 80], n: 0 }
+    }
+}
+impl Hasher for Rec {
+    fn finish(&self) -> u64 {
+        0
+    }
+    fn write(&mut self, bytes: &[u8]) {
+        for &x in bytes {
+            assert!(self.n < 80);
+            self.b[self.n] = x;
+            self.n += 1;
+        }
+    }
+}
+
+fn any_label(buf: &[u8; L]) -> &Label {
+    let n: usize = kani::any();
+    kani::assume(n <= L);
+    match <&Label>::try_from(&buf[..n]) {
+        Ok(l) => l,
+        Err(_) => unreachable!(),
+    }
+}
+
+// ---------------------------------------------------------------------
+// Label: complete by the type bound (labels are <= 63 octets).
+// ---------------------------------------------------------------------
+
+/// [C16.label_eq] `Label::eq` is exactly ASCII-case-insensitive octet equality.
+#[kani::proof]
+#[kani::unwind(65)]
+pub(crate) fn full_label_eq_is_ascii_ci() {
+    let (ba, bb): ([u8; L], [u8; L]) = (kani::any(), kani::any());
+    let (a, b) = (any_label(&ba), any_label(&bb));
+    assert!((a == b) == ref_label_eq(a.octets(), b.octets()));
+}
+
+/// [C16.label_cmp] `Label::cmp` is the RFC 4034 6.1 canonical label order
+/// (a total order: the reference is the lexicographic order of the folded
+/// octet strings), and `partial_cmp` agrees with it.
+#[kani::proof]
+#[kani::unwind(65)]
+pub(crate) fn full_label_cmp_is_canonical() {
+    let (ba, bb): ([u8; L], [u8; L]) = (kani::any(), kani::any());
+    let (a, b) = (any_label(&ba), any_label(&bb));
+    let c = a.cmp(b);
+    assert!(c == ref_label_cmp(a.octets(), b.octets()));
+    assert!(a.partial_cmp(b) == Some(c));
+}
+
+/// [C16.label_cmp] ordering is consistent with equality: `cmp == Equal` iff `eq`.
+#[kani::proof]
+#[kani::unwind(65)]
+pub(crate) fn full_label_cmp_equal_iff_eq() {
+    let (ba, bb): ([u8; L], [u8; L]) = (kani::any(), kani::any());
+    let (a, b) = (any_label(&ba), any_label(&bb));
+    assert!((a.cmp(b) == Ordering::Equal) == (a == b));
+}
+
+/// [C16.label_cmp] antisymmetry: `b.cmp(a) == a.cmp(b).reverse()`.
+#[kani::proof]
+#[kani::unwind(65)]
+pub(crate) fn full_label_cmp_antisymmetric() {
+    let (ba, bb): ([u8; L], [u8; L]) = (kani::any(), kani::any());
+    let (a, b) = (any_label(&ba), any_label(&bb));
+    assert!(b.cmp(a) == a.cmp(b).reverse());
+}
+
+/// [C16.label_hash] The octets a label feeds to a hasher are its length followed
+/// by its case-folded octets - hence equal labels feed identical octets, and
+/// labels that feed identical octets are equal.
+#[kani::proof]
+#[kani::unwind(65)]
+pub(crate) fn full_label_hash_is_folded_octets() {
+    let ba: [u8; L] = kani::any();
+    let a = any_label(&ba);
+    let mut h = Rec::new();
+    a.hash(&mut h);
+    assert!(h.n == a.len() + 1);
+    assert!(h.b[0] as usize == a.len());
+    let mut i = 0;
+    while i < a.len() {
+        assert!(h.b[i + 1] == fold(a.octets()[i]));
+        i += 1;
+    }
+}
+
+/// [C16.label_hash] direct form: `a == b` implies identical hasher input.
+#[kani::proof]
+#[kani::unwind(65)]
+pub(crate) fn full_label_eq_implies_same_hash_input() {
+    let (ba, bb): ([u8; L], [u8; L]) = (kani::any(), kani::any());
+    let (a, b) = (any_label(&ba), any_label(&bb));
+    if a == b {
+        let (mut ha, mut hb) = (Rec::new(), Rec::new());
+        a.hash(&mut ha);
+        b.hash(&mut hb);
+        assert!(ha.n == hb.n);
+        let mut i = 0;
+        while i < ha.n {
+            assert!(ha.b[i] == hb.b[i]);
+            i += 1;
+        }
+    }
+}
